@@ -85,6 +85,8 @@ theorem walkFrom_enc (fuel pos : Nat) (ms : List (Nat × Bytes)) (tr : Bytes) (h
 
 def isSeiHdr (h0 : UInt8) : Prop := nalType [h0] = 39 ∨ nalType [h0] = 40
 
+instance (h0 : UInt8) : Decidable (isSeiHdr h0) := by unfold isSeiHdr; exact inferInstance
+
 theorem walk_enc (h0 h1 : UInt8) (ms : List (Nat × Bytes)) (tr : Bytes) (hh : isSeiHdr h0) (hne : ms ≠ [])
     (htr : tr.length ≤ 1) (ht : ∀ m ∈ ms, m.1 ≤ 255) :
     walk (h0 :: h1 :: (encMsgs ms ++ tr)) = some (layout 2 ms) := by
